@@ -178,6 +178,8 @@ def single_def(fnode, name):
     defs = assignments_to(fnode, name)
     if len(defs) == 1 and isinstance(defs[0][1], ast.AST):
         return defs[0][1]
+    if len(defs) > 1 and all(isinstance(v, ast.AST) for _, v in defs) and len({ast.dump(v) for _, v in defs}) == 1:
+        return defs[0][1]  # the same definition written more than once (e.g. after a helper was inlined twice)
     return None
 
 
